@@ -10,7 +10,7 @@ RULE = ('cases: histories of up to 60 events over 3 thread ids x ~12 codes drawn
         'the table) x the four qualifiers; built from single-event ops and macro ops (nested pair, crossing pair, '
         're-opened START, stray END, same code on two threads, START..NONE..END window, windows of 257..316 records). Timestamps are '
         'increasing, decreasing or permuted (the stream order is the record order); a third of the histories reach the pairing object in 2..5 portions '
-        '(feed_generator per portion, every third portion record by record through feed). Arguments are projected onto '
+        '(feed_generator per portion, every third portion record by record through feed); a quarter carry a NONE/ALL record written twice (byte-identical neighbours). Arguments are projected onto '
         'each decoder\'s domain; the pairing object is built with an empty or an already populated thread map. Oracle (declarative, after EVERY step, over the whole history): a trace is emitted '
         'iff (END with an open START of the same thread+code and the code is decodable) or (NONE/ALL of a decodable '
         'code; continuation fragments may emit 0 or 1); an END window satisfies E_min <= ktraces <= E_max as '
@@ -108,7 +108,11 @@ def stamps(n, mode):
 
 def run_history(evs_abs, prepopulated=False, ts_mode='inc', delivery=None):
     """feed events one by one; returns list (per step) of emitted trace or None, and the real event objects"""
-    real = EV.realize(evs_abs, ts_list=stamps(len(evs_abs), ts_mode))
+    ts = stamps(len(evs_abs), ts_mode) or [1000 + 7 * i for i in range(len(evs_abs))]
+    for i in range(1, len(evs_abs)):
+        if evs_abs[i] is evs_abs[i - 1] or (len(evs_abs[i]) > 4 and evs_abs[i][4] == 'dup'):
+            ts[i] = ts[i - 1]        # the same record twice: every byte equal, the timestamp too
+    real = EV.realize([e[:4] for e in evs_abs], ts_list=ts)
     # the thread/process tables may already be populated when the pairing object is built (a thread map read
     # earlier, a second request on one PyKdebugParser): pairing must not depend on that
     tp = {t: 10 + i for i, t in enumerate(TIDS)} if prepopulated else {}
@@ -119,7 +123,12 @@ def run_history(evs_abs, prepopulated=False, ts_mode='inc', delivery=None):
 
 def prop_history(ctx, case):
     evs = [list(e) for e in case['events']]
-    hist = [(t, c, q) for t, c, q, _ in evs]
+    for k in sorted(case.get('dups', []), reverse=True):
+        # a NONE/ALL record written twice in a row (a buffer hand-over): two records of the stream, each with its own fate
+        j = k % len(evs) if evs else 0
+        if evs and evs[j][2] in (0, 3):
+            evs.insert(j + 1, evs[j][:4] + ['dup'])
+    hist = [(e[0], e[1], e[2]) for e in evs]
     decodable = set(EV.all_decodable())
     real, emitted = guard(run_history, evs, bool(case.get('prepopulated')), case.get('ts', 'inc'), case.get('delivery'))
     ident = {id(o): k for k, o in enumerate(real)}
@@ -189,6 +198,8 @@ def prop_history(ctx, case):
     kinds = {kind_of(c) for _, c, _ in hist}
     cls |= {'kind:' + k for k in kinds}
     cls.add('timestamps:' + case.get('ts', 'inc'))
+    if any(len(e) > 4 for e in evs):
+        cls.add('record-written-twice')
     cls.add('delivered-in-portions' if case.get('delivery') else 'delivered-record-by-record')
     if any(e.get('window') and len(e['window'][2]) > 256 for e in exps):
         cls.add('window-over-256-records')
@@ -241,7 +252,8 @@ def history_strategy(max_ops=25, kinds=(0, 0, 0, 0, 1, 2, 3, 4, 5, 6, 7), max_ev
                 ev(ti, a, 2, w3)
         s0 = ops[0][5] if ops else 0
         return {'events': out[:max_events], 'prepopulated': bool(s0 & 1), 'ts': ['inc', 'inc', 'dec', 'perm'][(s0 >> 1) % 4],
-                'delivery': None if (s0 >> 3) % 3 else [(s0 >> (5 + 3 * i)) % 61 for i in range(1 + (s0 >> 4) % 4)]}
+                'delivery': None if (s0 >> 3) % 3 else [(s0 >> (5 + 3 * i)) % 61 for i in range(1 + (s0 >> 4) % 4)],
+                'dups': [] if (s0 >> 2) % 4 else [(s0 >> 7) % 53, (s0 >> 13) % 59]}
 
     # decoders that read the records nested in their window get the same weight as a whole pool
     composite = [n for n in COMPOSITES if n in set(ordinary)]
